@@ -160,13 +160,15 @@ pub proof fn rsum_one<T>(x: T, f: spec_fn(T) -> real)
     assert(rsum(seq![x].drop_last(), f) == 0real);
 }
 pub proof fn lemma_wavg_nonneg(a1: real, p1: real, a2: real, p2: real)
-    requires a1 > 0real, a2 > 0real, p1 >= 0real, p2 >= 0real
-    ensures (a1 * p1 + a2 * p2) / (a1 + a2) >= 0real, a1 + a2 > 0real
+    requires a1 >= 0real, a2 >= 0real, p1 >= 0real, p2 >= 0real
+    ensures a1 + a2 != 0real ==> (a1 * p1 + a2 * p2) / (a1 + a2) >= 0real, a1 + a2 >= 0real
 {
-    assert(a1 * p1 >= 0real) by(nonlinear_arith) requires a1 > 0real, p1 >= 0real;
-    assert(a2 * p2 >= 0real) by(nonlinear_arith) requires a2 > 0real, p2 >= 0real;
+    if a1 + a2 != 0real {
+    assert(a1 * p1 >= 0real) by(nonlinear_arith) requires a1 >= 0real, p1 >= 0real;
+    assert(a2 * p2 >= 0real) by(nonlinear_arith) requires a2 >= 0real, p2 >= 0real;
     let n = a1 * p1 + a2 * p2; let dd = a1 + a2;
     assert(n / dd >= 0real) by(nonlinear_arith) requires n >= 0real, dd > 0real;
+    }
 }
 pub proof fn lemma_share_bounds(a: real, q: real, t: real)
     requires a >= 0real, 0real < q <= t
